@@ -315,3 +315,7 @@ Fixpoint h_eqb (a b : h) : bool :=
   | H2 a1 a2, H2 b1 b2 => h_eqb a1 b1 && h_eqb a2 b2
   | _, _ => false
   end.
+
+Definition is_leaf (x : h) : bool := match x with Leaf _ => true | _ => false end.
+(** every element is an atom (a transaction hash, not a tree node) *)
+Definition all_leaves (l : list h) : Prop := forallb is_leaf l = true.
